@@ -1852,9 +1852,19 @@ def _r3(ctx, oa):
                     tt, ft = t['otherwise'], [x[1] for x in t['arms'] if x[0] == '0'][0]
                     inc_blocks = cfg.reachable_from([tt], avoid={ft}) & region
                     # (the reset may sit in a block shared with the no-threshold path: `_ => { count = 0; false }`)
-                    rst = [dd for dd in defs.of(counter) if dd[0] in (cfg.reachable_from([ft], avoid={tt, hdr}) & (region | none_reach))
+                    # (`count = if improved_little { count + 1 } else { 0 }`: the counter is assigned once, from a temporary
+                    # that each arm defines — the arms' definitions are the counter's)
+                    cdefs = []
+                    for dd in defs.of(counter):
+                        if dd[2] == 'assign' and dd[3]['r'] == 'use' and 'l' in dd[3]['a'] and not dd[3]['a']['p'] and \
+                                dd[3]['a']['l'] != counter and len(defs.of(dd[3]['a']['l'])) > 1 and \
+                                all(x[2] == 'assign' for x in defs.of(dd[3]['a']['l'])):
+                            cdefs.extend(defs.of(dd[3]['a']['l']))
+                        else:
+                            cdefs.append(dd)
+                    rst = [dd for dd in cdefs if dd[2] == 'assign' and dd[0] in (cfg.reachable_from([ft], avoid={tt, hdr}) & (region | none_reach))
                            and dd[3]['r'] == 'use' and dd[3]['a'].get('k') == 'const' and const_value(dd[3]['a']) == 0]
-                    inc = [dd for dd in defs.of(counter) if dd[0] in inc_blocks and
+                    inc = [dd for dd in cdefs if dd[2] == 'assign' and dd[0] in inc_blocks and
                            ((dd[3]['r'] == 'use' and dd[3]['a'].get('k') == 'move') or _is_incr(dd[3], counter))]
                     inc_ok = inc_ok and bool(rst) and bool(inc)
         rep.check(inc_ok, 'R3', 'convergence-counter-semantics', where(b, sbi),
